@@ -328,6 +328,9 @@ def rule_rec(ctx) -> RuleResult:
             if isinstance(up, ast.Name) and isinstance(fsc.defs.single(up.id), ast.BinOp):
                 up = fsc.defs.single(up.id)
             if not (isinstance(up, ast.BinOp) and isinstance(up.op, ast.Add)):
+                # the bounds read through a record (`loc.start`, `loc.stop`) or temporaries: what they stand for
+                lo, up = fsc.expand(lo), fsc.expand(up)
+            if not (isinstance(up, ast.BinOp) and isinstance(up.op, ast.Add)):
                 continue
             size = up.right if unparse(up.left) == unparse(lo) else up.left if unparse(up.right) == unparse(lo) else None
             if size is None:
